@@ -77,6 +77,29 @@ class SD:
         self.run.analysed(fi)
         return fi
 
+    def place_fn(self):
+        """the function that places one option run in the shared array: the callee assign_option_index hands
+        (self.options_k, <the shared list>) to - found by role, so that it may be a staticmethod, a method or a
+        module function under any name"""
+        if getattr(self, "_place_fn", None) is not None:
+            return self._place_fn
+        ai = self.m(ENTRY, "assign_option_index")
+        me = ("self", ENTRY)
+        lp = P(ai, param_at(ai, 0, "options"))
+        pol = InlineOnly(names=(), props=True, max_depth=1)
+        pol.transparent_helpers = False
+        cands = {}
+        for p in engine(self.prog, pol).paths(ai, recv=ENTRY):
+            for e in p.events:
+                if e.kind == "call" and e.targets and len(e.args) >= 2 and e.args[0][0] == "attr" and e.args[0][1] == me \
+                        and e.args[0][2] in ("options_1", "options_2") and e.args[1] == lp:
+                    cands[e.targets[0].qual] = e.targets[0]
+        if len(cands) != 1:
+            raise AnalysisError(f"{ai.qual}: cannot identify the function that places an option run in the shared array ({sorted(cands)})")
+        self._place_fn = next(iter(cands.values()))
+        self.run.analysed(self._place_fn)
+        return self._place_fn
+
     def paths(self, fi, recv=None, eng=None):
         ps = (eng or self.eng).paths(fi, recv=recv)
         self.run.paths += len(ps)
@@ -999,8 +1022,8 @@ class SD:
                     and comp[2][0] == "call" and comp[2][1] == ("bound", comp[3][0][0], ro.qual) and comp[2][2] == (("attr", hme, "options"),)
             run.ob(rule, f"{hro.qual}:every-entry-against-shared-array", bool(ok), loc(hro),
                    "every entry, in order, is resolved against the message's option array" if ok else f"returns {show(rv)[:140]}")
-        # ---- _assign_option
-        ao = self.m(ENTRY, "_assign_option")
+        # ---- the run-placing function (_assign_option)
+        ao = self.place_fn()
         eo = P(ao, param_at(ao, 0, "entry_options"))
         ho = P(ao, param_at(ao, 1, "hdr_options"))
         find = prog.functions.get("header._find")
@@ -1011,6 +1034,10 @@ class SD:
                 run.ob(rule, f"{ao.qual}:total", False, loc(ao), f"may raise {p.outcome[1]}")
                 continue
             rv = p.retval()
+            ntv = self.eng.namedtuple_values(rv) if rv is not None else None
+            if ntv is not None:
+                self._pair_names = [f.name for f in prog.all_fields(rv[1])][:2]
+                rv = ("tuple", tuple(ntv))  # a (index, count) NamedTuple is the pair
             ext = [e for e in p.events if e.kind == "call" and e.attrname in ("extend", "append", "insert") and e.recv == ho]
             empty = any((c == ("unop", "not", eo) or c == eo) and (v == (c[0] == "unop")) for c, v, _, _ in p.conds)
             srch = [e for e in p.events if e.kind == "call" and ((find and any(f.qual == find.qual for f in e.targets)))]
@@ -1038,7 +1065,9 @@ class SD:
         # ---- assign_option_index
         ai = self.m(ENTRY, "assign_option_index")
         lp = P(ai, param_at(ai, 0, "options"))
-        for p in [p for p in self.paths(ai, ENTRY, eng=eng) if p.returns()]:
+        pol_ai = InlineOnly(names=(), props=True, max_depth=1)
+        pol_ai.transparent_helpers = False  # the placing function is analysed on its own above
+        for p in [p for p in self.paths(ai, ENTRY, eng=engine(prog, pol_ai)) if p.returns()]:
             rv = p.retval()
             calls = calls_to(p, ao.qual)
             if not calls:
@@ -1057,8 +1086,10 @@ class SD:
                             by_run[k] = c
                 ok = ok and set(by_run) == {"1", "2"}
                 if ok:
+                    names = getattr(self, "_pair_names", None) or [None, None]
                     for k, c in by_run.items():
-                        ok = ok and d.get(f"option_index_{k}") == ("item", c.result, const(0)) and d.get(f"num_options_{k}") == ("item", c.result, const(1))
+                        ok = ok and d.get(f"option_index_{k}") in (("item", c.result, const(0)), ("attr", c.result, names[0])) \
+                            and d.get(f"num_options_{k}") in (("item", c.result, const(1)), ("attr", c.result, names[1]))
                     ok = ok and d.get("options_1") == ("tuple", ()) and d.get("options_2") == ("tuple", ())
             run.ob(rule, f"{ai.qual}:pairs-stored", bool(ok), loc(ai),
                    "(index, count) of run k come from placing options_k in the shared array and are stored in the fields the resolver reads" if ok else
@@ -1091,7 +1122,7 @@ class SD:
     def find_certificate(self, rule):
         run, prog = self.run, self.prog
         fi = prog.functions.get("header._find")
-        ao = self.m(ENTRY, "_assign_option")
+        ao = self.place_fn()
         # which function does _assign_option search with?
         eng0 = engine(prog, NoInline())
         targets = set()
